@@ -13,7 +13,9 @@ RULE = ("tools/ptgen.py produces a set of protothread programs (every blocking c
         "A case = one program; distinct by source hash.")
 ASSUMPTIONS = ["scope of the property: one blocking macro per source line, none inside a nested switch, PT_CHILD_OK consulted "
                "before the next blocking point, re-invocation after exit only following PT_INIT (the generator obeys it)",
-               "ptgen.py's AST->graph and AST->C translations are trusted only up to the sequential cross-check"]
+               "ptgen.py's AST->graph and AST->C translations are trusted only up to the sequential cross-check",
+               "user code does not use identifiers from the header's own namespace (pt_*, PT_*, missing_PT_BEGIN, names with a "
+               "leading or trailing underscore); any other identifier may be a user variable that a macro argument mentions"]
 
 MC_TMPL = """---- MODULE Proto_mc_%(tag)s ----
 EXTENDS Proto, ProtoProgs_%(tag)s
@@ -73,7 +75,9 @@ def macro_locals():
                       r"(?:bool|_Bool|int|char|long|short|float|double|unsigned|\w+_t|__typeof__\s*\([^;{}]*?\)|typeof\s*\([^;{}]*?\)|struct\s+\w+|enum\s+\w+)"
                       r"[\s*]+([A-Za-z_]\w*)\s*(?==|;|\[)")
     names = sorted(set(decl.findall(text)) - {"VPARG1", "VPARG2", "VPMARK"})
-    return [n for n in names if re.fullmatch(r"[A-Za-z_]\w*", n)][:40]
+    # names in the header's own namespace (pt_ / PT_ prefix, leading or trailing underscore) are how a C macro stays out of the
+    # user's way - user code is assumed not to use them (as it must not use missing_PT_BEGIN / pt_spawn_res today)
+    return [n for n in names if re.fullmatch(r"[A-Za-z]\w*[A-Za-z0-9]", n) and not n.lower().startswith(("pt_", "missing_pt", "rf_", "librfn_"))][:40]
 
 
 def run(run):
